@@ -774,7 +774,7 @@ func modeTotal(seed uint64, n int, out *sx.Out) {
 		out.Case(fmt.Sprintf("TBuild %d %s %s", nf, oc, bs), map[string]interface{}{"case": i, "filters": nf, "syscalls": sr.Syscalls, "outcome": oc, "detail": detail}, "build/"+oc, oc != "OPanic")
 	}
 	// arbitrary lines
-	frags := []string{"-a", "-A", "-F", "-C", "-S", "-k", "-w", "-p", "-D", "--", "-", "exit,always", "always,exit", "uid=0", "a0&=0xffffffffff", "'", "\"", "\\", " ", "=", "-x", "-S=1", "-k=", "--a=exit,never", "auid!=4294967295", "x", "\t", "-F=", "arch=b64", "-S 5000", "path=/a b"}
+	frags := []string{"-a", "-A", "-F", "-C", "-S", "-k", "-w", "-p", "-D", "--", "-", "exit,always", "always,exit", "uid=0", "a0&=0xffffffffff", "'", "\"", "\\", " ", "=", "-x", "-S=1", "-k=", "--a=exit,never", "auid!=4294967295", "x", "\t", "-F=", "arch=b64", "-S 5000", "path=/a b", "''", "\"\""}
 	for i := 0; i < n/3; i++ {
 		r := sx.Fork(seed, uint64(i)+3<<32)
 		var sb strings.Builder
@@ -848,7 +848,7 @@ func modeFlags(seed uint64, n int, out *sx.Out) {
 		"w": {"/etc/passwd", "/tmp/my dir", "relative", ""},
 		"p": {"r", "rwxa", "wa", "q", "", "rr"},
 	}
-	strays := []string{"foo", "bar=1", "exit,always", "-", "uid=0"}
+	strays := []string{"foo", "bar=1", "exit,always", "-", "uid=0", "", "", " ", "''"}
 	for i := 0; i < n; i++ {
 		r := sx.Fork(seed, uint64(i)+4<<32)
 		var items []fitem
